@@ -101,8 +101,9 @@ def messages():
         st.lists(st.integers(1, 30), min_size=1, max_size=4),
         timestamps(),
         st.integers(0, 2),
-        st.sampled_from(["app:a", "", "eliot:traceback", "x y"]),
-        st.sampled_from(["started", "succeeded", "failed"]),
+        # log_message(None, ...) / start_action(action_type=None) emit a JSON null here; other falsy values come from foreign producers
+        st.sampled_from(["app:a", "", "eliot:traceback", "x y", "app:a", None, None, 0, False, []]),
+        st.sampled_from(["started", "succeeded", "failed", "started", "succeeded", "failed", None, ""]),
         st.one_of(
             st.dictionaries(names(), field_values(), max_size=5),
             st.dictionaries(names(), st.one_of(tricky_text(), field_values()), max_size=4),
